@@ -62,7 +62,8 @@ Leaves ==
           NCall("cat", FALSE, <<NVar("s"), StrLit("a")>>),
           NTpl("q", <<NTLit("a"), NInterp(0, NVar("s"))>>),
           NUn("-", NVar("n1")),
-          NTuple(<<NVar("s"), StrLit("a")>>)}
+          NTuple(<<NVar("s"), StrLit("a")>>),
+          NParen(NParen(NVar("n1")))}
 
 PNum  == {NVar("n1"), NNum(4), NNum(0), NVar("sn"), NVar("s"), NVar("nul")}
 PBool == {NVar("b"), NBool(FALSE), NVar("nul"), NVar("s")}
